@@ -311,6 +311,25 @@ class Check:
             return None
         return [json.loads(l) for l in lines]
 
+    def effect_entries(self, prop_no: int, theorem: str) -> Optional[list]:
+        """the rows of Gen/Effects.lean `pureTable` that belong to this property, evaluated by the model's checker; a row
+        the checker rejects (or whose result is not derived new although it must be) is recorded as a broken obligation"""
+        res = self.driver([{"fn": "pure_table"}])
+        if res is None or "ok" not in res[0]:
+            if res is not None:
+                self.broken.append({"kind": "driver", "answer": res[0]})
+            return None
+        rows = [r for r in res[0]["ok"] if r["prop"] == prop_no]
+        for r in rows:
+            if not r["wellFormed"]:
+                self.broken.append({"kind": "proof", "theorem": theorem, "entry": r["name"],
+                                    "what": "the effect checker rejects the program generated from this method: it may write "
+                                            "an object that existed before the call"})
+            elif r["mustReturnNew"] and r["resultNew"] is False:
+                self.broken.append({"kind": "proof", "theorem": theorem, "entry": r["name"],
+                                    "what": "the result is not derived to be a new object: it may be one of the operands"})
+        return rows
+
     # ------------------------------------------------------------------ verdict
     def match_known(self, item: dict) -> Optional[dict]:
         for k in self.known:
